@@ -1,5 +1,7 @@
 mod analyze_error;
 mod diagnostic_action;
+#[cfg(feature = "verif")]
+mod verif;
 
 use hashbrown::{HashMap, HashSet};
 
